@@ -17,6 +17,12 @@ from fractions import Fraction
 from . import fexpr
 from .fexpr import Inexact, feval, rat_str
 
+def canon(obj) -> str:
+    import json
+
+    return json.dumps(obj, sort_keys=True, separators=(",", ":"), default=str)
+
+
 # --------------------------------------------------------------------------- real model
 
 
